@@ -194,3 +194,22 @@ func queueEq(q []g.Address, ref []int) bool {
 	}
 	return true
 }
+
+// decoySim builds (and drops) another simulator with the same core size but different
+// limits and process limit.  A simulator must be unaffected by the existence of others,
+// so the monitors create such bystanders between building a simulator and stepping it.
+func decoySim(sc *StepCase, r *Rng) {
+	rl, wl := sc.M, sc.M
+	if sc.R == sc.M && sc.W == sc.M || r.Chance(1, 3) {
+		rl, wl = r.Range(1, sc.M), r.Range(1, sc.M)
+	}
+	cfg := g.SimulatorConfig{Mode: g.ICWS94, CoreSize: g.Address(sc.M), Processes: g.Address(r.Range(1, 9)), Cycles: 7,
+		ReadLimit: g.Address(rl), WriteLimit: g.Address(wl)}
+	if s, err := g.NewSimulator(cfg); err == nil && sc.M <= 64 && r.Chance(1, 4) {
+		// let the bystander run a little as well
+		s.AddWarrior(&g.WarriorData{Code: toGCode(sc.Core[:min(len(sc.Core), 4)]), Start: 0})
+		s.SpawnWarrior(0, g.Address(r.Intn(sc.M)))
+		s.RunCycle()
+		s.Reset()
+	}
+}
